@@ -253,7 +253,8 @@ mod body_channel {
         let ops = [Op::Feed(1), Op::Feed(2), Op::Eof, Op::Error, Op::DropSender, Op::Read];
         let mut seqs: Vec<Vec<Op>> = vec![vec![]];
         let mut layer: Vec<Vec<Op>> = vec![vec![]];
-        for _ in 0..6 { let mut next = Vec::new(); for s in &layer { for o in &ops { let mut t = s.clone(); t.push(*o); next.push(t); } } seqs.extend(next.iter().cloned()); layer = next; }
+        let depth = if std::env::var("VERIF_HARNESS_TIER").map(|v| v == "thorough").unwrap_or(false) { 7 } else { 6 };
+        for _ in 0..depth { let mut next = Vec::new(); for s in &layer { for o in &ops { let mut t = s.clone(); t.push(*o); next.push(t); } } seqs.extend(next.iter().cloned()); layer = next; }
         let waker = futures_noop();
         let mut n = 0usize;
         for seq in &seqs {
